@@ -116,6 +116,12 @@ def world_for(case, i, rng):
             names = ["tab\there", "new\nline", "bell\x07"]
         elif k == "many1000":
             names = ["f%04d" % j for j in range(1000)]
+        elif k == "links":
+            # links to nothing, to themselves, to each other, out of the root, to a directory above
+            names = ["plain.bin"]
+            for nm, tgt in [("dangling", ["odd", "nothing-here"]), ("selfloop", ["odd", "selfloop"]), ("ping", ["odd", "pong"]), ("pong", ["odd", "ping"]),
+                            ("up", []), ("tofile", ["ok", "plain.bin"]), ("deepdangling", ["odd", "no", "such", "dir", "x"])]:
+                nodes.append(srv.lnode(d + [nm], tgt))
         else:
             names = []
         for j, nm in enumerate(names):
@@ -132,6 +138,11 @@ def world_for(case, i, rng):
         views = [{"vk": "dvd", "p": d}]
         reqs = [{"op": "OPEN_DIR", "path": "/odd"}, {"op": "READ_DIR"}, {"op": "OPEN_FILE", "path": "/***DVD***/odd"}, {"op": "READ_FILE", "limit": 65536, "off": 32768},
                 {"op": "GET_DIR_SIZE", "path": "/odd"}, {"op": "OPEN_DIR", "path": "/odd"}, {"op": "READ_DIR_ENTRY_V2"}, {"op": "READ_DIR_ENTRY"}]
+        if k == "links":
+            reqs += [{"op": "READ_DIR_ENTRY"}] * 8 + [{"op": "OPEN_DIR", "path": "/odd"}] + [{"op": "READ_DIR_ENTRY_V2"}] * 9 + [{"op": "OPEN_DIR", "path": "/odd"}, {"op": "READ_DIR"}]
+            for nm in ("dangling", "selfloop", "ping", "up", "deepdangling"):
+                reqs += [{"op": "STAT_FILE", "path": "/odd/" + nm}, {"op": "OPEN_FILE", "path": "/odd/" + nm}, {"op": "OPEN_DIR", "path": "/odd/" + nm},
+                         {"op": "GET_DIR_SIZE", "path": "/odd/" + nm}, {"op": "OPEN_FILE", "path": "/***DVD***/odd/" + nm}]
         cli = ("make-iso-plain", "odd")
     # hostile names must be expressible in the script: surrogate escapes stand for raw bytes
     return {"name": "bad-%d-%s" % (i, w), "aw": False, "nodes": nodes, "views": views, "conns": [{"id": 1, "reqs": reqs}], "probe": True}, cli
